@@ -1,5 +1,6 @@
 import NavisModel.Model.Nblast
 import Mathlib.Tactic.Linarith
+import Mathlib.Tactic.Ring
 /-!
 Helper lemmas for property C06 (NBLAST scoring): order on extended rationals, `takeWhile`-scan facts,
 `digitize` specification / uniqueness / monotonicity, tables built from interval labels.
@@ -703,6 +704,19 @@ theorem sumOpt_le_sumOpt {α} (l : List α) (f g : α → Option Rat) (s s' : Ra
         have h2 := hb a (by simp) c c' hfa hga
         linarith
 
+theorem sumOpt_none_of_mem {α} (l : List α) (f : α → Option Rat) (x : α) (hx : x ∈ l) (hf : f x = none) :
+    sumOpt (l.map f) = none := by
+  induction l with
+  | nil => simp at hx
+  | cons a l ih =>
+    simp only [List.map_cons]
+    simp only [List.mem_cons] at hx
+    rcases hx with rfl | hx
+    · rw [hf]; rfl
+    · cases f a with
+      | none => rfl
+      | some c => simp [sumOpt, ih hx]
+
 theorem sumOpt_pos {α} (l : List α) (g : α → Option Rat) (s : Rat) (hne : l ≠ [])
     (hp : ∀ x ∈ l, ∀ b, g x = some b → 0 < b) (h : sumOpt (l.map g) = some s) : 0 < s := by
   induction l generalizing s with
@@ -826,7 +840,7 @@ theorem nearest_spec (t : Cloud) (p : V3) (j : Nat) (d : Rat) (h : nearest t p =
     · simp only [Prod.mk.injEq] at h1
       obtain ⟨rfl, rfl⟩ := h1
       refine ⟨by simp; omega, ?_, ?_⟩
-      · have : (t0 :: r)[1 + k] = r[k] := by
+      · have : (t0 :: r)[1 + k]'(by simp; omega) = r[k] := by
           have e : 1 + k = k + 1 := by omega
           simp [e]
         rw [this]
@@ -895,5 +909,503 @@ theorem matchPoint_self (c : Cloud) (hnd : (c.map (·.p)).Nodup) (bound : Option
     have : (0 : Rat) < b * b := by
       rcases lt_or_gt_of_ne hb0 with h | h <;> nlinarith
     simp [this]
+
+/-! ### Self score -/
+
+theorem pairRaw_self (fn : ScoreFn) (cfg : Cfg) (c : Cloud) (hnd : (c.map (·.p)).Nodup)
+    (hunit : ∀ p ∈ c, p.v.dot p.v = 1) :
+    pairRaw fn cfg c c = sumOpt (c.map fun p => fn (.sqrt 0) (if cfg.useAlpha then .sqrt (p.a * p.a) else .x (.fin 1))) := by
+  rw [pairRaw_eq]
+  apply sumOpt_congr
+  intro p hp
+  obtain ⟨j, hj⟩ := matchPoint_self c hnd cfg.bound p hp
+  rw [hj, hunit p hp, absR_one]
+  simp only [Option.bind_some, pointScore, matchArgs]
+  cases cfg.useAlpha <;> simp
+
+theorem pairRaw_self_eq_selfHit (fn : ScoreFn) (cfg : Cfg) (c : Cloud) (hnd : (c.map (·.p)).Nodup)
+    (hunit : ∀ p ∈ c, p.v.dot p.v = 1) (sh : Rat) (hsh : selfHit fn cfg.useAlpha c = some sh) :
+    pairRaw fn cfg c c = some sh := by
+  rw [pairRaw_self fn cfg c hnd hunit]
+  unfold selfHit at hsh
+  cases hua : cfg.useAlpha with
+  | true => rw [hua] at hsh; simpa using hsh
+  | false =>
+    rw [hua] at hsh
+    simp only [Bool.false_eq_true, if_false, Option.map_eq_some_iff] at hsh ⊢
+    obtain ⟨c0, hc0, rfl⟩ := hsh
+    rw [hc0]
+    exact sumOpt_const c c0
+
+theorem defForward_self_norm (fn : ScoreFn) (cfg : Cfg) (c : Cloud) (hn : cfg.normalized = true)
+    (hnd : (c.map (·.p)).Nodup) (hunit : ∀ p ∈ c, p.v.dot p.v = 1) (sh : Rat)
+    (hsh : selfHit fn cfg.useAlpha c = some sh) (hne : sh ≠ 0) : defForward fn cfg c c = some 1 := by
+  unfold defForward
+  rw [pairRaw_self_eq_selfHit fn cfg c hnd hunit sh hsh, hsh]
+  simp [hn, normalise, hne]
+
+theorem defForward_self_raw (fn : ScoreFn) (cfg : Cfg) (c : Cloud) (hn : cfg.normalized = false)
+    (hnd : (c.map (·.p)).Nodup) (hunit : ∀ p ∈ c, p.v.dot p.v = 1) (sh : Rat)
+    (hsh : selfHit fn cfg.useAlpha c = some sh) : defForward fn cfg c c = some sh := by
+  unfold defForward
+  rw [pairRaw_self_eq_selfHit fn cfg c hnd hunit sh hsh]
+  simp [hn]
+
+/-! ### The blaster machinery computes the definition -/
+
+theorem forward_eq_def (fn : ScoreFn) (cfg : Cfg) (nb : Blaster) (qi ti : Nat) (qn tn : Dotprops) (sh : Rat)
+    (hne : qi ≠ ti) (hq : nb.neurons[qi]? = some qn) (ht : nb.neurons[ti]? = some tn)
+    (hs : nb.selfHits[qi]? = some sh) (hsh : selfHit fn cfg.useAlpha qn.pts = some sh) :
+    forward fn cfg nb qi ti = defForward fn cfg qn.pts tn.pts := by
+  unfold forward defForward
+  simp only [hne, if_false, hq, ht, hs, hsh]
+
+theorem sqt_eq_def (fn : ScoreFn) (cfg : Cfg) (nb : Blaster) (qi ti : Nat) (qn tn : Dotprops) (shq sht : Rat)
+    (hne : qi ≠ ti) (hq : nb.neurons[qi]? = some qn) (ht : nb.neurons[ti]? = some tn)
+    (hsq : nb.selfHits[qi]? = some shq) (hshq : selfHit fn cfg.useAlpha qn.pts = some shq)
+    (hst : nb.selfHits[ti]? = some sht) (hsht : selfHit fn cfg.useAlpha tn.pts = some sht) (mode : Mode) :
+    singleQueryTarget fn cfg nb qi ti mode = defScore fn cfg qn.pts tn.pts mode := by
+  unfold singleQueryTarget defScore
+  rw [forward_eq_def fn cfg nb qi ti qn tn shq hne hq ht hsq hshq,
+      forward_eq_def fn cfg nb ti qi tn qn sht (Ne.symm hne) ht hq hst hsht]
+  simp only [hne, if_false]
+
+theorem range_map_eq {α β} (l : List α) (g : Nat → β) (h : α → β) (H : ∀ i (hi : i < l.length), g i = h l[i]) :
+    (List.range l.length).map g = l.map h := by
+  apply List.ext_getElem
+  · simp
+  · intro i h1 h2
+    simp at h1
+    simp [H i h1]
+
+/-- Two blasters that agree on the scores and ids addressed by the index lists assemble the same frame. -/
+theorem mqt_congr (fn : ScoreFn) (cfg : Cfg) (nb nb' : Blaster) (qix tix : List Nat) (σ : Nat → Nat) (mode : Mode)
+    (hs : ∀ i ∈ qix, ∀ j ∈ tix, singleQueryTarget fn cfg nb i j mode = singleQueryTarget fn cfg nb' i (σ j) mode)
+    (hq : ∀ i ∈ qix, idAt nb i = idAt nb' i) (ht : ∀ j ∈ tix, idAt nb j = idAt nb' (σ j)) :
+    multiQueryTarget fn cfg nb qix tix mode = multiQueryTarget fn cfg nb' qix (tix.map σ) mode := by
+  unfold multiQueryTarget
+  have e1 : (qix.map fun q => allSome (tix.map fun t => singleQueryTarget fn cfg nb q t mode)) =
+      (qix.map fun q => allSome ((tix.map σ).map fun t => singleQueryTarget fn cfg nb' q t mode)) := by
+    apply List.map_congr_left
+    intro i hi
+    rw [List.map_map]
+    congr 1
+    apply List.map_congr_left
+    intro j hj
+    exact hs i hi j hj
+  have e2 : (qix.map fun q => (idAt nb q, "")) = (qix.map fun q => (idAt nb' q, "")) :=
+    List.map_congr_left (fun i hi => by rw [hq i hi])
+  have e3 : (qix.map fun q => [(idAt nb q, "forward"), (idAt nb q, "reverse")]) =
+      (qix.map fun q => [(idAt nb' q, "forward"), (idAt nb' q, "reverse")]) :=
+    List.map_congr_left (fun i hi => by rw [hq i hi])
+  have e4 : tix.map (idAt nb) = (tix.map σ).map (idAt nb') := by
+    rw [List.map_map]; exact List.map_congr_left (fun j hj => ht j hj)
+  rw [e1, e2, e3, e4]
+
+/-- `multi_query_target` over all of `q` against all of `t`, when every addressed cell is the
+definition's score, is the definition's frame. -/
+theorem mqt_eq_def (fn : ScoreFn) (cfg : Cfg) (nb : Blaster) (q t : List Dotprops) (σ : Nat → Nat) (mode : Mode)
+    (hs : ∀ i (hi : i < q.length) j (hj : j < t.length),
+      singleQueryTarget fn cfg nb i (σ j) mode = defScore fn cfg q[i].pts t[j].pts mode)
+    (hq : ∀ i (hi : i < q.length), idAt nb i = q[i].id) (ht : ∀ j (hj : j < t.length), idAt nb (σ j) = t[j].id) :
+    multiQueryTarget fn cfg nb (List.range q.length) ((List.range t.length).map σ) mode = defNblast fn cfg q t mode := by
+  unfold multiQueryTarget defNblast
+  have e1 : ((List.range q.length).map fun qi => allSome (((List.range t.length).map σ).map fun ti =>
+        singleQueryTarget fn cfg nb qi ti mode)) =
+      (q.map fun qn => allSome (t.map fun tn => defScore fn cfg qn.pts tn.pts mode)) := by
+    apply range_map_eq
+    intro i hi
+    rw [List.map_map]
+    congr 1
+    apply range_map_eq
+    intro j hj
+    exact hs i hi j hj
+  have e2 : ((List.range q.length).map fun qi => (idAt nb qi, "")) = (q.map (·.id)).map fun i => (i, "") := by
+    rw [List.map_map]; exact range_map_eq q _ _ (fun i hi => by simp [hq i hi])
+  have e3 : ((List.range q.length).map fun qi => [(idAt nb qi, "forward"), (idAt nb qi, "reverse")]) =
+      (q.map (·.id)).map fun i => [(i, "forward"), (i, "reverse")] := by
+    rw [List.map_map]; exact range_map_eq q _ _ (fun i hi => by simp [hq i hi])
+  have e4 : ((List.range t.length).map σ).map (idAt nb) = t.map (·.id) := by
+    rw [List.map_map]; exact range_map_eq t _ _ (fun j hj => by simp [ht j hj])
+  rw [e1, e2, e3, e4]
+  cases allSome (q.map fun qn => allSome (t.map fun tn => defScore fn cfg qn.pts tn.pts mode)) with
+  | none => rfl
+  | some res =>
+    simp only [Option.map_some, mkFrame]
+    split <;> rfl
+
+theorem idAt_eq (nb : Blaster) (i : Nat) (n : Dotprops) (h : nb.neurons[i]? = some n) : idAt nb i = n.id := by
+  simp [idAt, h]
+
+theorem nblast_eq_def (fn : ScoreFn) (cfg : Cfg) (q t : List Dotprops) (mode : Mode) (qs ts : List Rat)
+    (hq : allSome (q.map fun n => selfHit fn cfg.useAlpha n.pts) = some qs)
+    (ht : allSome (t.map fun n => selfHit fn cfg.useAlpha n.pts) = some ts) :
+    nblast fn cfg q t mode = defNblast fn cfg q t mode := by
+  unfold nblast
+  rw [hq, ht]
+  simp only
+  have hql := allSome_length _ _ hq
+  have htl := allSome_length _ _ ht
+  simp only [List.length_map] at hql htl
+  have nq : ∀ i (hi : i < q.length), (q ++ t)[i]? = some q[i] := fun i hi => by
+    rw [List.getElem?_append_left hi, List.getElem?_eq_getElem hi]
+  have nt : ∀ j (hj : j < t.length), (q ++ t)[j + q.length]? = some t[j] := fun j hj => by
+    rw [List.getElem?_append_right (by omega)]
+    simp [List.getElem?_eq_getElem hj]
+  have sq : ∀ i (hi : i < q.length), ∃ h : i < qs.length, (qs ++ ts)[i]? = some qs[i] ∧
+      selfHit fn cfg.useAlpha q[i].pts = some qs[i] := fun i hi => by
+    obtain ⟨h, hh⟩ := allSome_get q _ qs hq i hi
+    exact ⟨h, by rw [List.getElem?_append_left h, List.getElem?_eq_getElem h], hh⟩
+  have st : ∀ j (hj : j < t.length), ∃ h : j < ts.length, (qs ++ ts)[j + q.length]? = some ts[j] ∧
+      selfHit fn cfg.useAlpha t[j].pts = some ts[j] := fun j hj => by
+    obtain ⟨h, hh⟩ := allSome_get t _ ts ht j hj
+    refine ⟨h, ?_, hh⟩
+    rw [List.getElem?_append_right (by omega)]
+    simp [hql, List.getElem?_eq_getElem h]
+  apply mqt_eq_def fn cfg ⟨q ++ t, qs ++ ts⟩ q t (· + q.length) mode
+  · intro i hi j hj
+    obtain ⟨_, h1, h2⟩ := sq i hi
+    obtain ⟨_, h3, h4⟩ := st j hj
+    exact sqt_eq_def fn cfg _ i (j + q.length) q[i] t[j] _ _ (by omega) (nq i hi) (nt j hj) h1 h2 h3 h4 mode
+  · intro i hi; exact idAt_eq _ _ _ (nq i hi)
+  · intro j hj; exact idAt_eq _ _ _ (nt j hj)
+
+/-! ### All-by-all equals query-against-itself -/
+
+theorem sqt_diag (fn : ScoreFn) (cfg : Cfg) (nb : Blaster) (i : Nat) (mode : Mode) :
+    singleQueryTarget fn cfg nb i i mode = (if cfg.normalized then some 1 else nb.selfHits[i]?).map .one := by
+  unfold singleQueryTarget forward; simp
+
+theorem defScore_forward (fn : ScoreFn) (cfg : Cfg) (q t : Cloud) :
+    defScore fn cfg q t .forward = (defForward fn cfg q t).map .one := by
+  unfold defScore; cases defForward fn cfg q t <;> rfl
+
+theorem allbyall_eq_nblast_self (fn : ScoreFn) (cfg : Cfg) (x : List Dotprops) (hs : List Rat)
+    (hh : allSome (x.map fun n => selfHit fn cfg.useAlpha n.pts) = some hs)
+    (hnd : ∀ n ∈ x, (n.pts.map (·.p)).Nodup) (hunit : ∀ n ∈ x, ∀ p ∈ n.pts, p.v.dot p.v = 1)
+    (hne : cfg.normalized = true → ∀ sh ∈ hs, sh ≠ 0) :
+    nblastAllByAll fn cfg x = nblast fn cfg x x .forward := by
+  unfold nblastAllByAll nblast
+  rw [hh]
+  simp only
+  have hl := allSome_length _ _ hh
+  simp only [List.length_map] at hl
+  have g1 : ∀ i (hi : i < x.length), ∃ h : i < hs.length, selfHit fn cfg.useAlpha x[i].pts = some hs[i] :=
+    fun i hi => allSome_get x _ hs hh i hi
+  apply mqt_congr fn cfg ⟨x, hs⟩ ⟨x ++ x, hs ++ hs⟩ (List.range x.length) (List.range x.length) (· + x.length) .forward
+  · intro i hi j hj
+    simp only [List.mem_range] at hi hj
+    obtain ⟨hi', hsi⟩ := g1 i hi
+    obtain ⟨hj', hsj⟩ := g1 j hj
+    have nqi : (x ++ x)[i]? = some x[i] := by rw [List.getElem?_append_left hi, List.getElem?_eq_getElem hi]
+    have ntj : (x ++ x)[j + x.length]? = some x[j] := by
+      rw [List.getElem?_append_right (by omega)]; simp [List.getElem?_eq_getElem hj]
+    have sqi : (hs ++ hs)[i]? = some hs[i] := by rw [List.getElem?_append_left hi', List.getElem?_eq_getElem hi']
+    have stj : (hs ++ hs)[j + x.length]? = some hs[j] := by
+      rw [List.getElem?_append_right (by omega)]; simp [hl, List.getElem?_eq_getElem hj']
+    rw [sqt_eq_def fn cfg ⟨x ++ x, hs ++ hs⟩ i (j + x.length) x[i] x[j] hs[i] hs[j] (by omega) nqi ntj sqi hsi stj hsj]
+    by_cases hij : i = j
+    · subst hij
+      rw [sqt_diag, defScore_forward]
+      simp only [List.getElem?_eq_getElem hi']
+      have hmem : x[i] ∈ x := List.getElem_mem hi
+      cases hn : cfg.normalized with
+      | true =>
+        rw [defForward_self_norm fn cfg _ hn (hnd _ hmem) (hunit _ hmem) hs[i] hsi
+          (hne hn _ (List.getElem_mem hi'))]
+        rfl
+      | false =>
+        rw [defForward_self_raw fn cfg _ hn (hnd _ hmem) (hunit _ hmem) hs[i] hsi]
+        rfl
+    · exact sqt_eq_def fn cfg ⟨x, hs⟩ i j x[i] x[j] hs[i] hs[j] hij
+        (List.getElem?_eq_getElem hi) (List.getElem?_eq_getElem hj)
+        (List.getElem?_eq_getElem hi') hsi (List.getElem?_eq_getElem hj') hsj .forward
+  · intro i hi
+    simp only [List.mem_range] at hi
+    rw [idAt_eq ⟨x, hs⟩ i x[i] (List.getElem?_eq_getElem hi),
+        idAt_eq ⟨x ++ x, hs ++ hs⟩ i x[i] (by rw [List.getElem?_append_left hi, List.getElem?_eq_getElem hi])]
+  · intro j hj
+    simp only [List.mem_range] at hj
+    rw [idAt_eq ⟨x, hs⟩ j x[j] (List.getElem?_eq_getElem hj),
+        idAt_eq ⟨x ++ x, hs ++ hs⟩ (j + x.length) x[j] (by
+          rw [List.getElem?_append_right (by omega)]; simp [List.getElem?_eq_getElem hj])]
+
+/-! ### Upper bounds from table facts -/
+
+theorem cell_mem (t : Lookup2d) (i j : Int) (c : Rat) (h : t.cell i j = some c) : ∃ row ∈ t.cells, c ∈ row := by
+  unfold Lookup2d.cell at h
+  split at h
+  · rename_i a b _ _
+    cases hr : t.cells[a]? with
+    | none => rw [hr] at h; simp at h
+    | some row =>
+      rw [hr] at h
+      simp only [Option.bind_some] at h
+      exact ⟨row, List.mem_of_getElem? hr, List.mem_of_getElem? h⟩
+  · cases h
+
+theorem call_le_of_max (t : Lookup2d) (M : Rat) (hmax : ∀ row ∈ t.cells, ∀ c ∈ row, c ≤ M)
+    (d v : Val) (c : Rat) (h : t.call d v = some c) : c ≤ M := by
+  obtain ⟨row, hr, hc⟩ := cell_mem t _ _ c h
+  exact hmax row hr c hc
+
+theorem fromDataframe_cells (rows cols : List Interval) (cells : List (List Rat)) (t : Lookup2d)
+    (h : Lookup2d.fromDataframe rows cols cells = some t) :
+    t.cells = cells ∧ Digitizer.fromIntervals rows = some t.ax0 ∧ Digitizer.fromIntervals cols = some t.ax1 := by
+  unfold Lookup2d.fromDataframe at h
+  split at h
+  · rename_i a0 a1 h0 h1
+    unfold Lookup2d.make at h
+    split at h
+    · cases h; exact ⟨rfl, h0, h1⟩
+    · cases h
+  · cases h
+
+/-- Without alpha: if the self-match cell `M = table(0, 1.0)` is positive and maximal, the normalised
+forward score is at most 1. -/
+theorem defForward_le_one_of_max (t : Lookup2d) (M : Rat) (hmax : ∀ row ∈ t.cells, ∀ c ∈ row, c ≤ M)
+    (hself : t.call (.sqrt 0) (.x (.fin 1)) = some M) (hM : 0 < M)
+    (cfg : Cfg) (hua : cfg.useAlpha = false) (hn : cfg.normalized = true) (q tt : Cloud) (s : Rat)
+    (h : defForward t.call cfg q tt = some s) : s ≤ 1 := by
+  unfold defForward at h
+  cases hp : pairRaw t.call cfg q tt with
+  | none => rw [hp] at h; cases h
+  | some scr =>
+    rw [hp] at h
+    simp only [hn, if_true] at h
+    have hsh : selfHit t.call cfg.useAlpha q = some ((q.length : Rat) * M) := by
+      unfold selfHit; simp [hua, hself]
+    rw [hsh] at h
+    simp only [normalise] at h
+    split at h
+    · cases h
+    · rename_i hne
+      simp only [Option.some.injEq] at h
+      subst h
+      have hN : 0 < (q.length : Rat) * M := by
+        have : 0 ≤ (q.length : Rat) * M := mul_nonneg (by exact_mod_cast Nat.zero_le _) (le_of_lt hM)
+        exact lt_of_le_of_ne this (Ne.symm hne)
+      rw [div_le_one₀ hN]
+      rw [pairRaw_eq] at hp
+      apply sumOpt_le_const q _ M scr _ hp
+      intro p _ c hc
+      cases hm : matchPoint tt cfg.bound p with
+      | none => rw [hm] at hc; cases hc
+      | some m =>
+        rw [hm] at hc
+        exact call_le_of_max t M hmax _ _ c hc
+
+theorem pyMin_le (a b c : Rat) (ha : a ≤ c) (hb : b ≤ c) : pyMin a b ≤ c := by
+  unfold pyMin; split <;> assumption
+
+theorem pyMax_le (a b c : Rat) (ha : a ≤ c) (hb : b ≤ c) : pyMax a b ≤ c := by
+  unfold pyMax; split <;> assumption
+
+/-- Every mode combines two scores `≤ 1` into scores `≤ 1`. -/
+theorem defScore_le_one (fn : ScoreFn) (cfg : Cfg) (q t : Cloud)
+    (hf : ∀ s, defForward fn cfg q t = some s → s ≤ 1) (hr : ∀ s, defForward fn cfg t q = some s → s ≤ 1)
+    (mode : Mode) (sc : Score) (h : defScore fn cfg q t mode = some sc) : sc.fwd ≤ 1 ∧ sc.rev ≤ 1 := by
+  unfold defScore at h
+  cases hF : defForward fn cfg q t with
+  | none => rw [hF] at h; cases h
+  | some f =>
+    rw [hF] at h
+    have h1 := hf f hF
+    cases mode with
+    | forward => simp at h; subst h; exact ⟨h1, h1⟩
+    | _ =>
+      all_goals
+        cases hR : defForward fn cfg t q with
+        | none => rw [hR] at h; cases h
+        | some r =>
+          rw [hR] at h
+          have h2 := hr r hR
+          simp only [Option.some.injEq] at h
+          subst h
+          simp only [Score.fwd, Score.rev]
+          first
+            | exact ⟨h1, h2⟩
+            | exact ⟨pyMin_le _ _ _ h1 h2, pyMin_le _ _ _ h1 h2⟩
+            | exact ⟨pyMax_le _ _ _ h1 h2, pyMax_le _ _ _ h1 h2⟩
+            | (constructor <;> linarith)
+
+theorem allSome_mem {α β} (l : List α) (g : α → Option β) (r : List β) (h : allSome (l.map g) = some r)
+    (y : β) (hy : y ∈ r) : ∃ x ∈ l, g x = some y := by
+  have he := allSome_eq_some _ _ h
+  have : some y ∈ r.map some := List.mem_map.mpr ⟨y, hy, rfl⟩
+  rw [← he] at this
+  obtain ⟨x, hx, hgx⟩ := List.mem_map.mp this
+  exact ⟨x, hx, hgx⟩
+
+/-- Entries of the definition's frame are `fwd`/`rev` components of per-pair scores. -/
+theorem defNblast_entries (fn : ScoreFn) (cfg : Cfg) (q t : List Dotprops) (mode : Mode) (f : Frame)
+    (h : defNblast fn cfg q t mode = some f) (row : List Rat) (hrow : row ∈ f.vals) (v : Rat) (hv : v ∈ row) :
+    ∃ qn ∈ q, ∃ tn ∈ t, ∃ sc, defScore fn cfg qn.pts tn.pts mode = some sc ∧ (v = sc.fwd ∨ v = sc.rev) := by
+  unfold defNblast at h
+  cases hres : allSome (q.map fun qn => allSome (t.map fun tn => defScore fn cfg qn.pts tn.pts mode)) with
+  | none => rw [hres] at h; cases h
+  | some res =>
+    rw [hres] at h
+    simp only [Option.map_some, Option.some.injEq] at h
+    subst h
+    have key : ∀ srow ∈ res, ∀ sc ∈ srow, ∃ qn ∈ q, ∃ tn ∈ t, defScore fn cfg qn.pts tn.pts mode = some sc := by
+      intro srow hsrow sc hsc
+      obtain ⟨qn, hqn, hq2⟩ := allSome_mem q _ res hres srow hsrow
+      obtain ⟨tn, htn, ht2⟩ := allSome_mem t _ srow hq2 sc hsc
+      exact ⟨qn, hqn, tn, htn, ht2⟩
+    unfold mkFrame at hrow
+    split at hrow
+    · simp only [List.mem_flatten, List.mem_map] at hrow
+      obtain ⟨pair, ⟨srow, hsrow, rfl⟩, hrow⟩ := hrow
+      simp only [List.mem_cons, List.not_mem_nil, or_false] at hrow
+      rcases hrow with rfl | rfl
+      · obtain ⟨sc, hsc, rfl⟩ := List.mem_map.mp hv
+        obtain ⟨qn, hqn, tn, htn, hd⟩ := key srow hsrow sc hsc
+        exact ⟨qn, hqn, tn, htn, sc, hd, Or.inl rfl⟩
+      · obtain ⟨sc, hsc, rfl⟩ := List.mem_map.mp hv
+        obtain ⟨qn, hqn, tn, htn, hd⟩ := key srow hsrow sc hsc
+        exact ⟨qn, hqn, tn, htn, sc, hd, Or.inr rfl⟩
+    · simp only [List.mem_map] at hrow
+      obtain ⟨srow, hsrow, rfl⟩ := hrow
+      obtain ⟨sc, hsc, rfl⟩ := List.mem_map.mp hv
+      obtain ⟨qn, hqn, tn, htn, hd⟩ := key srow hsrow sc hsc
+      exact ⟨qn, hqn, tn, htn, sc, hd, Or.inl rfl⟩
+
+/-! ### With alpha: a partial bound from a column-prefix maximality fact of the table -/
+
+/-- Cell by natural indices (0 outside the table). -/
+def cellD (cells : List (List Rat)) (i j : Nat) : Rat := ((cells[i]?).bind (·[j]?)).getD 0
+
+theorem fromDataframe_shape (rows cols : List Interval) (cells : List (List Rat)) (t : Lookup2d)
+    (h : Lookup2d.fromDataframe rows cols cells = some t) :
+    t.cells.length = t.ax0.nbins ∧ ∀ row ∈ t.cells, row.length = t.ax1.nbins := by
+  unfold Lookup2d.fromDataframe at h
+  split at h
+  · unfold Lookup2d.make at h
+    split at h
+    · rename_i hc
+      cases h
+      simp only [List.all_eq_true, beq_iff_eq] at hc
+      exact hc
+    · cases h
+  · cases h
+
+/-- On finite values a well-formed table always answers, with the cell addressed by the two bins. -/
+theorem call_eq_cellD (t : Lookup2d) (hwf0 : t.ax0.WF) (hwf1 : t.ax1.WF)
+    (hshape : t.cells.length = t.ax0.nbins ∧ ∀ row ∈ t.cells, row.length = t.ax1.nbins)
+    (d v : Val) (hd : d.finite = true) (hv : v.finite = true) :
+    ∃ i j : Nat, digitize t.ax0 d = (i : Int) ∧ digitize t.ax1 v = (j : Int) ∧ i < t.ax0.nbins ∧ j < t.ax1.nbins ∧
+      t.call d v = some (cellD t.cells i j) := by
+  obtain ⟨i, _, _, hi, hin, _, _, _, _⟩ := digitize_spec_aux t.ax0 hwf0 d hd
+  obtain ⟨j, _, _, hj, hjn, _, _, _, _⟩ := digitize_spec_aux t.ax1 hwf1 v hv
+  refine ⟨i, j, hi, hj, hin, hjn, ?_⟩
+  unfold Lookup2d.call Lookup2d.cell
+  rw [hi, hj]
+  have e1 : npIndex t.ax0.nbins (i : Int) = some i := by
+    unfold npIndex; simp; omega
+  have e2 : npIndex t.ax1.nbins (j : Int) = some j := by
+    unfold npIndex; simp; omega
+  rw [e1, e2]
+  simp only
+  have hil : i < t.cells.length := by rw [hshape.1]; exact hin
+  have hrow := hshape.2 _ (List.getElem_mem hil)
+  have hjl : j < (t.cells[i]).length := by rw [hrow]; exact hjn
+  unfold cellD
+  simp [List.getElem?_eq_getElem hil, List.getElem?_eq_getElem hjl]
+
+/-- A value above boundary `J` lands in bin `J` or higher. -/
+theorem digitize_ge_of_pass (d : Digitizer) (hwf : d.WF) (v : Val) (hv : v.finite = true) (J : Nat) (bJ : X)
+    (hb : d.boundaries[J]? = some bJ) (hp : scanPred d v bJ = true) : (J : Int) ≤ digitize d v := by
+  obtain ⟨k, lo, hi, hk, hkn, hlo, hhi, h1, h2⟩ := digitize_spec_aux d hwf v hv
+  rw [hk]
+  by_contra hc
+  have hkJ : k + 1 ≤ J := by omega
+  by_cases he : k + 1 = J
+  · rw [he, hb] at hhi; cases hhi; rw [hp] at h2; cases h2
+  · have hlt := isMonoInc_lt d.boundaries hwf.mono (k + 1) J (by omega) hi bJ hhi hb
+    have := scanPred_anti d v hlt hp
+    rw [this] at h2; cases h2
+
+theorem alpha_point_le (t : Lookup2d) (hwf0 : t.ax0.WF) (hwf1 : t.ax1.WF)
+    (hshape : t.cells.length = t.ax0.nbins ∧ ∀ row ∈ t.cells, row.length = t.ax1.nbins) (J : Nat)
+    (hmono : ∀ i < t.ax0.nbins, ∀ j < t.ax1.nbins, ∀ j' < t.ax1.nbins, j ≤ j' → J ≤ j' →
+      cellD t.cells i j ≤ cellD t.cells 0 j')
+    (h0 : digitize t.ax0 (.sqrt 0) = 0)
+    (d v w : Val) (hd : d.finite = true) (hv : v.finite = true) (hw : w.finite = true)
+    (hle : digitize t.ax1 v ≤ digitize t.ax1 w) (hJ : (J : Int) ≤ digitize t.ax1 w)
+    (a b : Rat) (ha : t.call d v = some a) (hb : t.call (.sqrt 0) w = some b) : a ≤ b := by
+  obtain ⟨i, j, _, hj, hin, hjn, hc⟩ := call_eq_cellD t hwf0 hwf1 hshape d v hd hv
+  obtain ⟨i', j', hi', hj', _, hjn', hc'⟩ := call_eq_cellD t hwf0 hwf1 hshape (.sqrt 0) w rfl hw
+  rw [hc] at ha; rw [hc'] at hb
+  cases ha; cases hb
+  have hi0 : i' = 0 := by rw [h0] at hi'; omega
+  subst hi0
+  rw [hj, hj'] at hle
+  rw [hj'] at hJ
+  exact hmono i hin j hjn j' hjn' (by omega) (by omega)
+
+theorem defForward_le_one_alpha (t : Lookup2d) (hwf0 : t.ax0.WF) (hwf1 : t.ax1.WF)
+    (hshape : t.cells.length = t.ax0.nbins ∧ ∀ row ∈ t.cells, row.length = t.ax1.nbins) (J : Nat)
+    (hmono : ∀ i < t.ax0.nbins, ∀ j < t.ax1.nbins, ∀ j' < t.ax1.nbins, j ≤ j' → J ≤ j' →
+      cellD t.cells i j ≤ cellD t.cells 0 j')
+    (hpos : ∀ j' < t.ax1.nbins, J ≤ j' → 0 < cellD t.cells 0 j')
+    (h0 : digitize t.ax0 (.sqrt 0) = 0)
+    (cfg : Cfg) (hua : cfg.useAlpha = true) (hn : cfg.normalized = true) (q tt : Cloud)
+    (hyp : ∀ p ∈ q, ∀ m, matchPoint tt cfg.bound p = some m →
+      digitize t.ax1 (matchArgs true m).2 ≤ digitize t.ax1 (.sqrt (p.a * p.a)) ∧
+      (J : Int) ≤ digitize t.ax1 (.sqrt (p.a * p.a)))
+    (s : Rat) (h : defForward t.call cfg q tt = some s) : s ≤ 1 := by
+  unfold defForward at h
+  cases hp : pairRaw t.call cfg q tt with
+  | none => rw [hp] at h; cases h
+  | some scr =>
+    rw [hp] at h
+    simp only [hn, if_true] at h
+    cases hsh : selfHit t.call cfg.useAlpha q with
+    | none => rw [hsh] at h; cases h
+    | some sh =>
+      rw [hsh] at h
+      simp only [normalise] at h
+      split at h
+      · cases h
+      · rename_i hne
+        simp only [Option.some.injEq] at h
+        subst h
+        unfold selfHit at hsh
+        simp only [hua, if_true] at hsh
+        rw [pairRaw_eq, hua] at hp
+        have hle : scr ≤ sh := by
+          apply sumOpt_le_sumOpt q _ _ scr sh _ hp hsh
+          intro p hpq a b ha hb
+          cases hm : matchPoint tt cfg.bound p with
+          | none => rw [hm] at ha; cases ha
+          | some m =>
+            rw [hm] at ha
+            obtain ⟨h1, h2⟩ := hyp p hpq m hm
+            simp only [Option.bind_some, pointScore] at ha
+            exact alpha_point_le t hwf0 hwf1 hshape J hmono h0 _ _ _ rfl rfl rfl h1 h2 a b ha hb
+        have hqne : q ≠ [] := by
+          intro hq; subst hq; simp [sumOpt] at hsh; exact hne hsh.symm
+        have hpos' : 0 < sh := by
+          apply sumOpt_pos q _ sh hqne _ hsh
+          intro p hpq b hb
+          obtain ⟨i', j', hi', hj', _, hjn', hc'⟩ :=
+            call_eq_cellD t hwf0 hwf1 hshape (.sqrt 0) (.sqrt (p.a * p.a)) rfl rfl
+          rw [hc'] at hb; cases hb
+          have hi0 : i' = 0 := by rw [h0] at hi'; omega
+          subst hi0
+          -- `J ≤ j'` comes from the hypothesis, which needs the match of `p`; it exists because the sum does
+          cases hm : matchPoint tt cfg.bound p with
+          | none =>
+            exfalso
+            have := sumOpt_none_of_mem q (fun p => (matchPoint tt cfg.bound p).bind (pointScore t.call true)) p hpq
+              (by simp [hm])
+            rw [this] at hp; cases hp
+          | some m =>
+            obtain ⟨_, h2⟩ := hyp p hpq m hm
+            rw [hj'] at h2
+            exact hpos j' hjn' (by omega)
+        rw [div_le_one₀ hpos']
+        exact hle
 
 end Navis.Nblast
